@@ -44,7 +44,7 @@ func bodyDerived(v ssa.Value, pkt ssa.Value, depth int) bool {
 	case *ssa.Phi:
 		n := 0
 		for _, e := range x.Edges {
-			if e == ssa.Value(x) {
+			if stripSlices(e) == ssa.Value(x) {
 				continue
 			}
 			if !bodyDerived(e, pkt, depth-1) {
